@@ -406,6 +406,19 @@ def rule_case_split(ctx, repo):
     last = fn.body[-1]
     ctx.check(Q.match("self.v[:] = self._v_mem[:, 0]", last) is not None, "C09.case-split", "Delay.check_var/output",
               "output = oldest stored column on every path", "Delay output is no longer the oldest stored value", repo.W(ci, last))
+    # time-mode history: the interpolated sample replaces BOTH the value and its time stamp at the same position, then
+    # everything older is dropped from both arrays (paired writes keep (t, v) samples consistent)
+    e = Q.first("$vi = interp_n2($ti, self.t[$i:$i + 2], self._v_mem[:, $i:$i + 2])", fn)[1]
+    ok = e is not None and Q.has("self.t[$i] = $ti", fn, e) and Q.has("self._v_mem[:, $i] = $vi", fn, e) and \
+        Q.has("self.t = np.delete(self.t, np.arange(0, $i))", fn, e) and Q.has("self._v_mem = np.delete(self._v_mem, np.arange(0, $i), axis=1)", fn, e) \
+        and Q.has("$ti = dae_t - self.delay", fn, e)
+    ctx.check(ok, "C09.case-split", "Delay.check_var/time-mode-pairing",
+              "interpolated sample written as a (time, value) pair at one position; older samples dropped from both arrays",
+              "time-mode delay no longer updates the sample time together with the interpolated value (or prunes only one of the two "
+              "arrays): later interpolations use a stale abscissa", repo.W(ci, fn))
+    ok = Q.has("self.t = np.append(self.t, dae_t)", fn) and Q.has("self._v_mem = np.hstack((self._v_mem, self.u.v[:, None]))", fn)
+    ctx.check(ok, "C09.case-split", "Delay.check_var/time-mode-append", "new (time, value) sample appended to both arrays",
+              "time-mode delay appends to only one of the history arrays", repo.W(ci, fn))
     # Switcher: one flag per option compared with that option
     ci, fn = repo.method("Switcher", "check_var", DISC)
     ok = False
@@ -424,7 +437,7 @@ def run(ctx):
     ctx.rule("C09.tautology", "no comparison of an expression with itself in discrete.py", 1)
     ctx.rule("C09.xset", "x_set producer tuple vs its three consumers", 4)
     ctx.rule("C09.order", "flag evaluation order in TDS.fg_update / PFlow.fg_update / Model dispatch", 5)
-    ctx.rule("C09.case-split", "time case splits exhaustive; Delay output; Switcher flags", 4)
+    ctx.rule("C09.case-split", "time case splits exhaustive; Delay output and (time, value) pairing; Switcher flags", 6)
     ctx.assume("one array element is interpreted as a scalar; do_adjust_* (initialisation-time limit adjustment) is skipped (is_init=False)")
     ctx.assume("'never leaves [lower, upper] at any stored instant' inside a simulation and delay interpolation accuracy: declined")
     repo = Repo()
